@@ -24,11 +24,16 @@ def zo_files(zdir: Path):
     return {str(p.relative_to(zdir)): p.read_text() for p in sorted(zdir.rglob("*.zo")) if ".zorg" not in p.parts}
 
 
-def edit_dir(rng, zdir: Path):
+def edit_dir(rng, zdir: Path, only_delete: bool = False):
     """edits between two index runs: changed bodies of indexed notes, new notes without ZID, a new page, a deleted page"""
     log = []
     files = zo_files(zdir)
     names = sorted(files)
+    if only_delete and len(names) > 1:
+        # the only pending change is a page that went away: the run has no page to compile, only the index and the hash map to update
+        victim = rng.choice(names)
+        (zdir / victim).unlink()
+        return [f"delete page {victim} (nothing else)"]
     n = 0
     for rel in names:
         lines = files[rel].split("\n")
@@ -158,7 +163,7 @@ def scenario(args):
                 # state after an uninterrupted create, then edits on a later day
                 start = work / "start2"
                 F.copy_dir(work / "ref", start)
-                out["edits"] = edit_dir(rng, start)
+                out["edits"] = edit_dir(rng, start, only_delete=str(seed).endswith("-1"))
                 cmd, now = ("db", "reindex"), DAY1
             ref = work / "ref"
             F.copy_dir(start, ref)
@@ -268,7 +273,7 @@ def classify(f: C.Failure, entry: dict) -> bool:
 
 RULE = (
     "generated directories (2-3 pages, half of the notes without ZID, some sections); phase 1: `db create`, phase 2: after an uninterrupted create, edits on a "
-    "later day (changed bodies of indexed notes, new notes, retitled pages and deleted items = changes without write-back, a new page, a deleted page) then `db reindex`.  For EVERY boundary between two external effects "
+    "later day (changed bodies of indexed notes, new notes, retitled pages and deleted items = changes without write-back, a new page, a deleted page; in one directory per run a deleted page and nothing else) then `db reindex`.  For EVERY boundary between two external effects "
     "of the uninterrupted run (temporary-file write, atomic rename of a page / file_hash.json / next_ids.json / whitelist, database commit incl. the commits "
     "inside remove_file_by_name, unlink): kill there (BaseException before the effect; rollback as on a real kill), run the same command again, then check: "
     "rerun exits 0; user text AND modify-date stamps of every page equal the uninterrupted run's (ZID values aside); identity ZIDs unique in files and index; index == from-scratch index of a copy "
